@@ -306,6 +306,12 @@ fn verif_c02_tamper_sweep() {
     rec.finish();
 }
 
+fn seen_first(seen: &mut [bool; 6], slot: usize) -> bool {
+    let first = !seen[slot];
+    seen[slot] = true;
+    first
+}
+
 /// Coordinated two-message attack on the pseudonym computation inside a complete query: the corrupt helper adds
 /// +d / -d to two lanes of the first vectorised record of its PRF multiplication message and the same offsets to the
 /// share it sends when the product is opened. A MAC that does not bind every lane separately accepts this and the
@@ -343,7 +349,7 @@ fn verif_c02_cross_lane_prf_attack() {
         let expected = wl::reference_histogram(&case.reports, 32);
         let (l0, l1) = (r.below(16) as usize, 0usize);
         let l1 = (l0 + 1 + r.below(15) as usize + l1) % 16;
-        let hits = Arc::new(Mutex::new((0u32, 0u32)));
+        let hits = Arc::new(Mutex::new((0u32, 0u32, [false; 6])));
         let h2 = Arc::clone(&hits);
         let interceptor: crate::helpers::in_memory_config::DynStreamInterceptor =
             Arc::new(move |ctx: &crate::helpers::in_memory_config::InspectContext, data: &mut Vec<u8>| {
@@ -353,11 +359,16 @@ fn verif_c02_cross_lane_prf_attack() {
                     let dst = ids.iter().position(|i| i == dest).unwrap();
                     let on_shard0 = shard.map(u32::from).unwrap_or(0) == 0;
                     let g = gate.as_ref();
-                    let mult = g.ends_with("mult_mask_with_p_r_f_input") && dst == (attacker + 2) % 3;
-                    let reveal = g.ends_with("revealz") && dst == (attacker + 1) % 3;
+                    let mult = g.ends_with("mult_mask_with_p_r_f_input") && src == attacker && dst == (attacker + 2) % 3;
+                    // the opened share it sends to its right peer, and - so that the corrupt helper itself opens the same
+                    // (shifted) value and behaves consistently afterwards - the two copies it receives (a corrupt helper
+                    // may treat what it receives as it likes)
+                    let reveal_out = g.ends_with("revealz") && src == attacker && dst == (attacker + 1) % 3;
+                    let reveal_in = g.ends_with("revealz") && dst == attacker;
+                    let reveal = reveal_out || reveal_in;
                     let mut h = h2.lock().unwrap();
-                    let first = if mult { h.0 == 0 } else { h.1 == 0 };
-                    if src == attacker && on_shard0 && (mult || reveal) && first && data.len() >= 32 * 16 {
+                    let slot = if mult { 0 } else if reveal_out { 1 } else { 2 + src.min(2) };
+                    if on_shard0 && (mult || reveal) && data.len() >= 32 * 16 && seen_first(&mut h.2, slot) {
                         let d = Fp25519::from(0x0dd_ba11_u64);
                         for (lane, plus) in [(l0, true), (l1, false)] {
                             let sl = &mut data[32 * lane..32 * (lane + 1)];
@@ -372,7 +383,7 @@ fn verif_c02_cross_lane_prf_attack() {
                 }
             });
         let run = wl::run_hybrid(&case, Some(interceptor));
-        let (hm, hr) = *hits.lock().unwrap();
+        let (hm, hr, _) = *hits.lock().unwrap();
         if hm == 0 {
             rec.inconclusive(format!("case {idx}: the PRF multiplication message was never seen"));
             continue;
